@@ -188,6 +188,16 @@ def manager_closure(prog: Program, universe=None):
                     bad.append(("index", "Module.subs is not the inverse index of the subscription table"))
                 if ALL in s2[1] and len(s2[1]) > 1:
                     bad.append(("double", "module registered for ALL_MESSAGE_TYPES and for an individual type at once (it would receive that type twice)"))
+                # the routing table afterwards is what the frame asked for
+                adding = k in ("MDF_SUBSCRIBE", "MDF_RESUME_SUBSCRIPTION")
+                if sym == ALL:
+                    want = frozenset([ALL]) if adding else frozenset()
+                elif ALL in st[1]:
+                    want = st[1]  # individual requests change nothing while registered for all types
+                else:
+                    want = (st[1] | {sym}) if adding else (st[1] - {sym})
+                if set(s2[1]) != set(want) and not bad:
+                    bad.append(("route", f"after {k[4:]}({sym}) the module is registered for {sorted(map(str, s2[1]))}, the frame asks for {sorted(map(str, want))}"))
                 for code, text in bad:
                     viol.append((code, text, trace))
                 if not bad and s2 not in seen:
